@@ -13,18 +13,51 @@ use std::collections::{BTreeMap, BTreeSet};
 /// One edit of a fact set (applied to the canonical model form). Returns None if not applicable.
 #[derive(Clone, Debug, PartialEq, Eq)]
 enum Edit {
-    RenameTerm(u32),
+    /// variant: 0 append, 1 case of the first letter flipped, 2 trailing blank, 3 last character replaced (same length), 4 empty
+    RenameTerm(u32, u8),
     AddParent(u32, u32),
     RemoveParent(u32, u32),
     FlipObsolete(u32),
     SetReplacement(u32, Option<u32>),
     AddTerm(u32, Option<u32>),
     RemoveTerm(u32),
-    RenameRecord(Kind, u32),
+    RenameRecord(Kind, u32, u8),
     AddAnnotation(Kind, u32, u32),
     RemoveAnnotation(Kind, u32, u32),
     AddRecord(Kind, u32, Option<u32>),
     RemoveRecord(Kind, u32),
+}
+
+/// the rename variants: small changes a lenient comparison would overlook
+fn rename(name: &mut String, variant: u8) {
+    match variant {
+        0 => name.push_str(" (renamed)"),
+        1 => {
+            // flip the case of the first ASCII letter (or prepend one)
+            match name.char_indices().find(|(_, c)| c.is_ascii_alphabetic()) {
+                Some((i, c)) => {
+                    let f = if c.is_ascii_uppercase() { c.to_ascii_lowercase() } else { c.to_ascii_uppercase() };
+                    name.replace_range(i..i + 1, &f.to_string());
+                }
+                None => name.insert(0, 'x'),
+            }
+        }
+        2 => name.push(' '),
+        3 => {
+            // same length, last character replaced
+            match name.pop() {
+                Some(c) => name.push(if c == 'z' { 'y' } else { 'z' }),
+                None => name.push('z'),
+            }
+        }
+        _ => {
+            if name.is_empty() {
+                name.push('e');
+            } else {
+                name.clear();
+            }
+        }
+    }
 }
 
 fn reclose(r: &mut RefOnt) {
@@ -37,7 +70,12 @@ fn applicable_edits(r: &RefOnt) -> Vec<Edit> {
     let mut v = vec![];
     let ids: Vec<u32> = r.terms.keys().copied().collect();
     for &t in &ids {
-        v.push(Edit::RenameTerm(t));
+        v.push(Edit::RenameTerm(t, 0));
+        if Some(&t) == ids.last() {
+            for variant in 1..=4u8 {
+                v.push(Edit::RenameTerm(t, variant));
+            }
+        }
         v.push(Edit::FlipObsolete(t));
         for &p in &ids {
             if p == t {
@@ -70,13 +108,28 @@ fn applicable_edits(r: &RefOnt) -> Vec<Edit> {
     }
     for (k, kind) in KINDS.iter().enumerate() {
         for (id, rec) in &r.recs[k] {
-            v.push(Edit::RenameRecord(*kind, *id));
+            v.push(Edit::RenameRecord(*kind, *id, 0));
+            if Some(id) == r.recs[k].keys().next() {
+                for variant in 1..=4u8 {
+                    v.push(Edit::RenameRecord(*kind, *id, variant));
+                }
+            }
             v.push(Edit::RemoveRecord(*kind, *id));
             for &t in &ids {
                 if rec.terms.contains(&t) {
                     v.push(Edit::RemoveAnnotation(*kind, *id, t));
                 } else {
                     v.push(Edit::AddAnnotation(*kind, *id, t));
+                }
+            }
+        }
+        // a new record whose numeric id already belongs to a record of ANOTHER kind
+        for other in 0..3 {
+            if other != k {
+                if let Some(shared) = r.recs[other].keys().next() {
+                    if !r.recs[k].contains_key(shared) {
+                        v.push(Edit::AddRecord(*kind, *shared, Some(ids[ids.len() - 1])));
+                    }
                 }
             }
         }
@@ -92,7 +145,7 @@ fn applicable_edits(r: &RefOnt) -> Vec<Edit> {
 fn apply(r: &RefOnt, e: &Edit) -> RefOnt {
     let mut n = r.clone();
     match e {
-        Edit::RenameTerm(t) => n.terms.get_mut(t).unwrap().name.push_str(" (renamed)"),
+        Edit::RenameTerm(t, variant) => rename(&mut n.terms.get_mut(t).unwrap().name, *variant),
         Edit::AddParent(t, p) => {
             n.terms.get_mut(t).unwrap().parents.insert(*p);
         }
@@ -125,7 +178,7 @@ fn apply(r: &RefOnt, e: &Edit) -> RefOnt {
                 }
             }
         }
-        Edit::RenameRecord(k, id) => n.recs[k.idx()].get_mut(id).unwrap().name.push_str(" (renamed)"),
+        Edit::RenameRecord(k, id, variant) => rename(&mut n.recs[k.idx()].get_mut(id).unwrap().name, *variant),
         Edit::AddAnnotation(k, id, t) => {
             n.recs[k.idx()].get_mut(id).unwrap().terms.insert(*t);
         }
@@ -188,6 +241,8 @@ struct Report {
     removed_recs: [BTreeSet<u32>; 3],
     /// id string -> (name change, added terms, removed terms, n_terms)
     changed_recs: [BTreeMap<String, (Option<(String, String)>, Vec<u32>, Vec<u32>, (usize, usize))>; 3],
+    /// indices of the twelve lists (added / removed / changed x terms, genes, omim, orpha) that hold an entry twice
+    duplicates: Vec<usize>,
 }
 
 fn sorted(v: Option<&Vec<hpo::HpoTermId>>) -> Vec<u32> {
@@ -204,7 +259,10 @@ fn term_delta(d: &HpoTermDelta) -> (u32, (Option<(String, String)>, Vec<u32>, Ve
 }
 
 fn rec_delta(d: &AnnotationDelta) -> (String, (Option<(String, String)>, Vec<u32>, Vec<u32>, (usize, usize))) {
-    (d.id().to_string(), (d.changed_name().cloned(), sorted(d.added_terms()), sorted(d.removed_terms()), d.n_terms()))
+    // the numeric id of the record, whatever prefix the textual id carries (its format is not part of the property)
+    let text = d.id().to_string();
+    let digits: String = text.chars().rev().take_while(|c| c.is_ascii_digit()).collect::<String>().chars().rev().collect();
+    (digits, (d.changed_name().cloned(), sorted(d.added_terms()), sorted(d.removed_terms()), d.n_terms()))
 }
 
 fn observe(a: &Ontology, b: &Ontology) -> Report {
@@ -222,17 +280,25 @@ fn observe(a: &Ontology, b: &Ontology) -> Report {
     r.added_recs[2] = c.added_orpha_diseases().iter().map(|g| g.id().as_u32()).collect();
     r.removed_recs[2] = c.removed_orpha_diseases().iter().map(|g| g.id().as_u32()).collect();
     r.changed_recs[2] = c.changed_orpha_diseases().iter().map(rec_delta).collect();
-    // the lists themselves must not contain duplicates
-    assert_eq!(r.changed_terms.len(), c.changed_hpo_terms().len(), "duplicate entries in changed_hpo_terms");
+    // the lists themselves must not contain an entry twice ("exactly the terms ...")
+    let listed = [
+        c.added_hpo_terms().len(), c.removed_hpo_terms().len(), c.changed_hpo_terms().len(),
+        c.added_genes().len(), c.removed_genes().len(), c.changed_genes().len(),
+        c.added_omim_diseases().len(), c.removed_omim_diseases().len(), c.changed_omim_diseases().len(),
+        c.added_orpha_diseases().len(), c.removed_orpha_diseases().len(), c.changed_orpha_diseases().len(),
+    ];
+    let distinct = [
+        r.added_terms.len(), r.removed_terms.len(), r.changed_terms.len(),
+        r.added_recs[0].len(), r.removed_recs[0].len(), r.changed_recs[0].len(),
+        r.added_recs[1].len(), r.removed_recs[1].len(), r.changed_recs[1].len(),
+        r.added_recs[2].len(), r.removed_recs[2].len(), r.changed_recs[2].len(),
+    ];
+    r.duplicates = (0..12).filter(|i| listed[*i] != distinct[*i]).collect();
     r
 }
 
-fn rec_id_string(k: Kind, id: u32) -> String {
-    match k {
-        Kind::Gene => format!("NCBI-GeneID:{id}"),
-        Kind::Omim => format!("OMIM:{id}"),
-        Kind::Orpha => format!("ORPHA:{id}"),
-    }
+fn rec_id_string(_k: Kind, id: u32) -> String {
+    format!("{id}")
 }
 
 /// the diff of two fact sets, computed by the model
@@ -271,6 +337,9 @@ fn expected(a: &RefOnt, b: &RefOnt) -> Report {
 
 fn first_difference(got: &Report, want: &Report) -> Option<(String, String, String)> {
     let d = |site: &str, sig: &str, det: String| Some((site.to_string(), sig.to_string(), det));
+    if !got.duplicates.is_empty() {
+        return d("Ontology::compare", "a list of the comparison holds the same entry twice", format!("lists (0..12 = added / removed / changed x terms, genes, omim, orpha): {:?}", got.duplicates));
+    }
     if got.added_terms != want.added_terms {
         return d("Comparison::added_hpo_terms", "not exactly the terms present only in the new ontology", format!("observed {:?} expected {:?}", got.added_terms, want.added_terms));
     }
@@ -342,6 +411,12 @@ fn bases() -> Vec<(RefOnt, &'static str)> {
         Facts::ann(Kind::Orpha, 78, "Same disease", Some(118)),
     ];
     out.push((RefOnt::derive(&f), "records sharing a name"));
+    // 6. one numeric id in all three kinds (a record of one kind must never be taken for one of another kind)
+    let mut f = Facts { version: (2024, 2, 29), ..Default::default() };
+    f.terms = vec![t(1, "All"), t(118, "Phenotypic abnormality"), t(200, "A"), t(201, "B")];
+    f.edges = vec![(118, 1), (200, 118), (201, 118)];
+    f.anns = vec![Facts::ann(Kind::Gene, 7, "SEVEN", Some(200)), Facts::ann(Kind::Omim, 7, "Seven (omim)", Some(201)), Facts::ann(Kind::Orpha, 8, "Eight (orpha)", Some(200))];
+    out.push((RefOnt::derive(&f), "the same numeric record id in several kinds"));
     out
 }
 
@@ -388,7 +463,8 @@ fn compare_pair(ctx: &mut Ctx, a: &RefOnt, oa: &Ontology, b: &RefOnt, history: &
                     }
                     Err(p) => ctx.violation("Ontology::compare", "[new ontology decoded from descending lists] panics", json!({"case": case(), "observed": p})),
                 },
-                Err(e) => ctx.violation("Ontology::from_bytes", "rejects a file laid out as documented (descending lists)", json!({"facts": b.to_facts().to_json(), "observed": e})),
+                // whether a file with descending lists must be accepted is a question for the decoder properties, not for this one
+                Err(_) => {}
             }
             // the new ontology against its own binary round trip (the library's writer and reader)
             ctx.exec();
@@ -411,6 +487,34 @@ fn compare_pair(ctx: &mut Ctx, a: &RefOnt, oa: &Ontology, b: &RefOnt, history: &
                         }
                     }
                     Err(p) => ctx.violation("Ontology::compare", "[Builder-built ontologies] panics", json!({"case": case(), "observed": p})),
+                }
+            }
+            // the new ontology decoded with ANOTHER release version, and a Builder-built old against a decoded new:
+            // the release version is not a difference of terms, genes or diseases, the constructor even less
+            {
+                let mut fb = b.to_facts();
+                fb.version = (2025, 12, 31);
+                ctx.exec();
+                if let Ok(Ok(ob2)) = drive::from_bytes(&encode::encode(&fb, &EncOpts::v(3))) {
+                    match guard(|| observe(oa, &ob2)) {
+                        Ok(rep) => {
+                            if let Some((site, sig, det)) = first_difference(&rep, &expected(a, b)) {
+                                ctx.violation(&site, &format!("[new ontology carries another release version] {sig}"), json!({"case": case(), "difference": det}));
+                            }
+                        }
+                        Err(p) => ctx.violation("Ontology::compare", "[new ontology carries another release version] panics", json!({"case": case(), "observed": p})),
+                    }
+                    if let Some(ba) = build_via_builder(a) {
+                        ctx.exec();
+                        match guard(|| observe(&ba, &ob2)) {
+                            Ok(rep) => {
+                                if let Some((site, sig, det)) = first_difference(&rep, &expected(a, b)) {
+                                    ctx.violation(&site, &format!("[Builder-built old, decoded new] {sig}"), json!({"case": case(), "difference": det}));
+                                }
+                            }
+                            Err(p) => ctx.violation("Ontology::compare", "[Builder-built old, decoded new] panics", json!({"case": case(), "observed": p})),
+                        }
+                    }
                 }
             }
             ctx.outcome(crate::ctx::fnv_str(&format!("{fwd:?}")));
@@ -487,6 +591,61 @@ pub fn run(ctx: &mut Ctx) {
                 }
             }
             ctx.sample(|| json!({"base": bname, "first_edit": format!("{e1:?}"), "second_edits": applicable_edits(&s1).len()}));
+        }
+    }
+    // ---- lists around and beyond the inline capacity of 30: a term with 35 parents, a gene on 40 terms, an OMIM
+    // disease on 31 terms; the first / middle / last entry removed, three at once, entries added below / between /
+    // above the existing ones, several of these together
+    {
+        let mut f = Facts { version: (2024, 2, 29), ..Default::default() };
+        f.terms = vec![Facts::term(1, "All"), Facts::term(118, "Phenotypic abnormality")];
+        f.edges = vec![(118, 1)];
+        for k in 0..45u32 {
+            f.terms.push(Facts::term(1000 + 2 * k, &format!("P{k}")));
+            f.edges.push((1000 + 2 * k, 118));
+        }
+        f.terms.push(Facts::term(5000, "fan"));
+        for k in 5..40u32 {
+            f.edges.push((5000, 1000 + 2 * k));
+        }
+        for k in 3..43u32 {
+            f.anns.push(Facts::ann(Kind::Gene, 11, "GENE1", Some(1000 + 2 * k)));
+        }
+        for k in 10..41u32 {
+            f.anns.push(Facts::ann(Kind::Omim, 600_001, "Disease one", Some(1000 + 2 * k)));
+        }
+        let base = RefOnt::derive(&f);
+        let parent = |k: u32| 1000 + 2 * k;
+        let scripts: Vec<Vec<Edit>> = vec![
+            vec![Edit::RemoveParent(5000, parent(5))],
+            vec![Edit::RemoveParent(5000, parent(22))],
+            vec![Edit::RemoveParent(5000, parent(39))],
+            vec![Edit::RemoveParent(5000, parent(5)), Edit::RemoveParent(5000, parent(22)), Edit::RemoveParent(5000, parent(39))],
+            vec![Edit::AddParent(5000, parent(0))],
+            vec![Edit::AddParent(5000, parent(44))],
+            vec![Edit::AddParent(5000, parent(0)), Edit::AddParent(5000, parent(44)), Edit::RemoveParent(5000, parent(35))],
+            vec![Edit::RemoveAnnotation(Kind::Gene, 11, parent(3))],
+            vec![Edit::RemoveAnnotation(Kind::Gene, 11, parent(22))],
+            vec![Edit::RemoveAnnotation(Kind::Gene, 11, parent(42))],
+            vec![Edit::RemoveAnnotation(Kind::Gene, 11, parent(3)), Edit::RemoveAnnotation(Kind::Gene, 11, parent(22)), Edit::RemoveAnnotation(Kind::Gene, 11, parent(42)), Edit::AddAnnotation(Kind::Gene, 11, parent(0)), Edit::AddAnnotation(Kind::Gene, 11, parent(44)), Edit::AddAnnotation(Kind::Gene, 11, 5000)],
+            vec![Edit::RemoveAnnotation(Kind::Omim, 600_001, parent(40)), Edit::AddAnnotation(Kind::Omim, 600_001, parent(9))],
+            vec![Edit::RemoveAnnotation(Kind::Omim, 600_001, parent(10)), Edit::RemoveAnnotation(Kind::Omim, 600_001, parent(25)), Edit::RenameRecord(Kind::Omim, 600_001, 3)],
+        ];
+        ctx.space("edits/long-lists", &format!("a term with 35 parents, a gene on 40 terms, an OMIM disease on 31 terms: {} edit scripts (first / middle / last entry removed, three at once, entries added below / between / above, combined with a rename)", scripts.len()));
+        for script in &scripts {
+            if !ctx.take() {
+                continue;
+            }
+            ctx.state();
+            ctx.nontrivial();
+            let mut cur = base.clone();
+            for e in script {
+                cur = apply(&cur, e);
+            }
+            if let Ok(oa) = build(&base) {
+                compare_pair(ctx, &base, &oa, &cur, &|| json!(script.iter().map(|e| format!("{e:?}")).collect::<Vec<_>>()));
+            }
+            ctx.sample(|| json!({"script": script.iter().map(|e| format!("{e:?}")).collect::<Vec<_>>()}));
         }
     }
     // ---- (last) ontologies beyond 65 536 terms: self-comparison and single edits
